@@ -202,7 +202,8 @@ class PerformanceEntry(
             patches = list(self.patch_entries)
             context = Container(_=Container(
                 _elem_parent=self,
-                _elem_routines=self._routines
+                _elem_routines=self._routines,
+                _seen_sample_indices=set()
             ))
             path = ""
 
